@@ -41,6 +41,27 @@ type smallTarget struct {
 	B    string
 }
 
+// Two distinct struct types with one name and one package path (declared in
+// different functions): the second has fewer fields than the first, and both
+// use tags that the bind-shape inputs contain as keys.
+func localTargetWide() any {
+	type SmallTarget struct {
+		Name string
+		P    int    `bcl:"x__y"`
+		Q    string `bcl:"a1"`
+		R    int    `bcl:"b"`
+		A    int
+	}
+	return &SmallTarget{}
+}
+
+func localTargetNarrow() any {
+	type SmallTarget struct {
+		A int `bcl:"b"`
+	}
+	return &SmallTarget{}
+}
+
 func workerMain() {
 	// a runaway allocation must not take the machine down
 	var lim syscall.Rlimit
@@ -137,6 +158,14 @@ func serve(req workReq) (res workRes) {
 		call("Unmarshal(struct)", func() error { var t smallTarget; return bcl.Unmarshal(req.Src, &t, w()...) })
 		call("Unmarshal(slice)", func() error { var t []smallTarget; return bcl.Unmarshal(req.Src, &t, w()...) })
 		call("UnmarshalFile", func() error { var t smallTarget; return bcl.UnmarshalFile(file(), &t, w()...) })
+		// targets of the wrong nature are errors too, never crashes
+		call("Unmarshal(nil *struct)", func() error { var t *smallTarget; return bcl.Unmarshal(req.Src, t, w()...) })
+		call("Unmarshal(nil *slice)", func() error { var t *[]smallTarget; return bcl.Unmarshal(req.Src, t, w()...) })
+		call("Unmarshal(local type, wide)", func() error { return bcl.Unmarshal(req.Src, localTargetWide(), w()...) })
+		call("Unmarshal(local type of the same name, narrow)", func() error { return bcl.Unmarshal(req.Src, localTargetNarrow(), w()...) })
+		call("Unmarshal(untyped nil)", func() error { return bcl.Unmarshal(req.Src, nil, w()...) })
+		call("Unmarshal(value)", func() error { var t smallTarget; return bcl.Unmarshal(req.Src, t, w()...) })
+		call("UnmarshalFile(nil *struct)", func() error { var t *smallTarget; return bcl.UnmarshalFile(file(), t, w()...) })
 	}
 	return
 }
